@@ -106,6 +106,11 @@ def rules(chk, db):
     encrules.read_rules(chk, db, want=('LEN',))
     chk.rule('NR', 'no narrowing of run-time lengths in any encoder', minimum=20)
     encrules.narrowing(chk, db, 'NR', {'ReadPayload', 'Read', 'WritePayload', 'Write'})
+    # the trait is decided against the DOCUMENTED layouts; that the encoders of all fungible families really use them (BIN for
+    # integral element sequences and only for those, ARY otherwise - also for logical buffers and value wrappers) is rule PK
+    chk.rule('PK', 'Prefix() and Match() of every container kind are the documented container prefix', minimum=60)
+    encrules.prefix_kind(chk, db, 'PK', ('Prefix', 'Match'))
+    encrules.size_rules(chk, db)      # re-encoding a decoded fungible value reproduces the bytes only if both Size() agree with their writers
 
 
 def brief(sig):
